@@ -15,7 +15,7 @@ CASE_TYPE = 'C10.case'
 EXTRA_IMPORTS = 'From PJ Require Import Model.Async.\n'
 RULE = ('batches of 1..3 (quick) / 1..4 (thorough) elements, each element a call or a notification of a method that succeeds / raises a '
         'protocol error / raises another exception / is unknown / is a plain non-coroutine function / is a method of a class-based view keeping per-call state on its instance across the suspension, with 0..2 suspension points placed '
-        'in the method, in a middleware (before / after the inner handler) or in an error handler; every suspension point is a Future; '
+        'in the method, in a middleware (before / after the inner handler) or in an error handler (a third of the shapes also under a plain-function middleware that returns the inner awaitable); every suspension point is a Future; '
         'ALL interleavings of the resolution order are enumerated (multiset permutations; sampled above 400 per shape in quick) for the '
         'concurrent mode, and the forced order for concurrent_batch=False. Each element is also dispatched ALONE to obtain its own trace '
         'and response. distinct = distinct (shape, mode, schedule); non-trivial = at least two elements and one resolved suspension')
@@ -62,9 +62,17 @@ def build(shape, gate, concurrent):
         await suspend(k, 'eh')
         return error
 
+    def plain_mw(request, context, handler):
+        # a middleware written as a plain function that does its bookkeeping and hands back the awaitable of the inner handler
+        # (the middleware type allows it): entering happens when the dispatcher CALLS the chain, not when it awaits it
+        k = request.params[0]
+        gate.log.append((k, ['enter-plain']))
+        return handler(request, context)
+
     use_mw = any(e['where'] in ('mw_pre', 'mw_post') for e in shape)
     use_eh = any(e['where'] == 'eh' for e in shape)
-    disp = AsyncDispatcher(middlewares=[mw] if use_mw else [], error_handlers={None: [eh]} if use_eh else {},
+    mws = ([mw] if use_mw else []) + ([plain_mw] if any(e.get('plain_mw') for e in shape) else [])
+    disp = AsyncDispatcher(middlewares=mws, error_handlers={None: [eh]} if use_eh else {},
                            concurrent_batch=concurrent)
 
     async def ok(a):
@@ -155,6 +163,10 @@ def run_alone(shape, k):
         prev = m
     if prev < len(evs):
         segs[-1].extend(evs[prev:])
+    if segs and segs[0][:1] == [['enter-plain']]:
+        # the plain-function middleware runs when the dispatcher CALLS the chain (for a concurrent batch: for every element, before
+        # any of them is awaited); what follows starts when the awaitable is awaited - a segment boundary without a Future
+        segs = [segs[0][:1], segs[0][1:]] + segs[1:]
     return segs, (None if r is None else json.loads(r[0]))
 
 
@@ -212,12 +224,22 @@ def shapes(tier, rnd):
                 s = 0
             sh.append((m, s, w, rnd.random() < 0.25))
         out.append(sh)
-    return [[{'m': m, 'susp': s, 'where': w, 'notif': nf} for m, s, w, nf in sh] for sh in out]
+    res = [[{'m': m, 'susp': s, 'where': w, 'notif': nf} for m, s, w, nf in sh] for sh in out]
+    # every third shape additionally runs under a plain-function middleware
+    for i, sh in enumerate(res):
+        if i % 3 == 1:
+            for e in sh:
+                e['plain_mw'] = True
+    return res
 
 
 def actual_susp(shape):
     """How many suspension points each element really goes through (taken from its alone-run)."""
-    return [len(run_alone(shape, k)[0]) - 1 for k in range(len(shape))]
+    out = []
+    for k in range(len(shape)):
+        segs = run_alone(shape, k)[0]
+        out.append(len(segs) - 1 - (1 if segs[0] == [['enter-plain']] else 0))
+    return out
 
 
 def interleavings(counts, limit, rnd):
@@ -267,6 +289,8 @@ def encode(case, obs):
     elems = clist('(%s, %s)' % (clist(clist(cjson(e) for e in seg) for seg in segs), copt(resp, cjson)) for segs, resp in obs['alone'])
     trace = clist('(%d%%nat, %s)' % (k, cjson(e)) for k, e in obs['trace'])
     ch = obs['order'] if case['sequential'] else case['choices']
+    if not case['sequential'] and obs['alone'] and obs['alone'][0][0] and obs['alone'][0][0][0] == [['enter-plain']]:
+        ch = list(range(len(case['shape']))) + list(ch)       # the awaitables are started in request order
     if obs['status'] != 'done':
         raise ValueError('schedule could not be followed: %s' % obs['status'])
     return ('{| elems := %s; sequential := %s; choices := %s; obs_doc := %s; obs_trace := %s |}'
